@@ -440,6 +440,49 @@ def Thread.step (t : Thread) (o : Outcome) (stale : Option Nat) (s : Store) : St
   | .crashBefore => ⟨s, .done .crashed, r, none⟩
   | .crashAfter => ⟨ex.1, .done .crashed, r, none⟩
 
+/-! ### a call answered by the world: informer cache and error classes
+
+`Reconciler.client` is the manager's client: typed objects (`Usage`, `UsageList`) are read
+through the informer cache, unstructured objects (the used and the using resource, the
+selector's List) and every write go to the API server. A `Call` says how ONE API call of a
+reconcile is answered: `usage` = the answer of the cached `Get` of the Usage (`some none` = the
+Usage is missing from the cache, `some (some u)` = the version `u` the cache holds), `count` =
+the number of Usages the cached, indexed `List` returns, `cls` = the error class an injected
+failure carries (`.other` stands for every class the code does not name: Forbidden, Timeout,
+ServiceUnavailable, a transport error, a context deadline). `Call.plain` = live answers, generic
+error: the world of `Thread.step _ _ none`. -/
+structure Call where
+  count : Option Nat := none
+  usage : Option (Option Usage) := none
+  cls : Err := .other
+  deriving Repr, Inhabited
+
+def Call.plain : Call := {}
+
+def Call.isPlain (c : Call) : Bool := c.count.isNone && c.usage.isNone && c.cls == .other
+
+/-- the reply of a cached read as served by the informer cache -/
+def Call.answer (c : Call) (r : Req) (resp : Resp) : Resp :=
+  match r, resp with
+  | .listU _, .count n => .count (c.count.getD n)
+  | .getU _, live =>
+    (match c.usage with
+     | none => live
+     | some none => .err .notFound
+     | some (some u) => .usage u)
+  | _, live => live
+
+/-- one API call of a reconcile answered by the world `c` under a fault outcome -/
+def Thread.stepW (t : Thread) (o : Outcome) (c : Call) (s : Store) : StepOut :=
+  let r := t.request
+  let ex := s.exec r
+  match o with
+  | .ok => let resp := c.answer r ex.2; ⟨ex.1, t.next s.usages resp, r, some resp⟩
+  | .fail => ⟨s, t.next s.usages (.err c.cls), r, some (.err c.cls)⟩
+  | .conflict => ⟨s, t.next s.usages (faultResp .conflict r), r, some (faultResp .conflict r)⟩
+  | .crashBefore => ⟨s, .done .crashed, r, none⟩
+  | .crashAfter => ⟨ex.1, .done .crashed, r, none⟩
+
 /-! ### the environment: users, admission webhook, Kubernetes GC -/
 
 /-- owner reference to the XR-like controller object `ctrl`, if it exists -/
@@ -497,6 +540,38 @@ def Store.reapplyUsage (s : Store) (name ctrl : String) : Store × Option Bool :
       if controlledByOther x.owners xr.uid then (s, some false)
       else if x.owners ≠ [] then (s, some true)
       else ((s.putU { x with owners := [⟨xr.uid, true, "XR", ctrl⟩], rv := s.nextRv }).bump, some true)
+
+/-- The same re-apply for a composed Usage whose template names an apiVersion of the Usage kind
+that `RespectOwnerRefs` does not recognise (it compares the whole GroupVersionKind of the current
+object, as served in the template's version, with ONE version): the option does nothing, the
+merge patch carries the desired `ownerReferences` and the list is replaced by the XR's controller
+reference. -/
+def Store.reapplyRaw (s : Store) (name ctrl : String) : Store × Option Bool :=
+  match s.getU name with
+  | none => (s, none)
+  | some x =>
+    match s.getR "ex.org" "XR" ctrl with
+    | none => (s, none)
+    | some xr =>
+      if controlledByOther x.owners xr.uid then (s, some false)
+      else if x.owners = [⟨xr.uid, true, "XR", ctrl⟩] then (s, some true)
+      else ((s.putU { x with owners := [⟨xr.uid, true, "XR", ctrl⟩], rv := s.nextRv }).bump, some true)
+
+/-- set one label (the in-use label is a field of its own and is never touched here) -/
+def setLabel : Labels → String × String → Labels
+  | [], kv => [kv]
+  | (k, v) :: l, kv => if k = kv.1 then (k, kv.2) :: l else (k, v) :: setLabel l kv
+
+/-- Another writer (the XR composer patching a composed resource, a provider, a user) merges
+labels into a resource: a merge patch without resourceVersion; the in-use label, the attempt
+annotation and the owner references are left alone; the resourceVersion moves iff something
+changed. -/
+def Store.touchRes (s : Store) (g k n : String) (labels : Labels) : Store × Bool :=
+  match s.getR g k n with
+  | none => (s, false)
+  | some r =>
+    if labels.foldl setLabel r.labels = r.labels then (s, true)
+    else ((s.putR { r with labels := labels.foldl setLabel r.labels, rv := s.nextRv }).bump, true)
 
 inductive Verdict where
   | allowed | denied | errored
@@ -577,6 +652,12 @@ inductive Action where
   | xa (name ctrl : String)
   | start (u : String)
   | step (u : String) (o : Outcome) (stale : Option Nat)
+  /-- another writer merges labels into a resource -/
+  | er (g kind name : String) (labels : Labels)
+  /-- one API call of a reconcile answered by the world (informer cache, error class) -/
+  | stepW (u : String) (o : Outcome) (c : Call)
+  /-- the XR composer re-applies a composed Usage templated in a version `RespectOwnerRefs` does not recognise -/
+  | xaRaw (name ctrl : String)
   deriving Repr, Inhabited
 
 /-- what an action reports (compared with the real run by the driver) -/
@@ -589,6 +670,7 @@ inductive Report where
   | started (ok : Bool)
   | ignored
   | call (req : Req) (reply : Option Resp) (fin : Option Result)
+  | touched (found : Bool)
   deriving Repr, Inhabited
 
 def Sys.thread? (sys : Sys) (n : String) : Option Thread := sys.threads.find? (fun t => t.uname == n)
@@ -620,14 +702,34 @@ def Sys.exec (sys : Sys) : Action → Sys × Report
         ({ sys with store := out.store, threads := sys.threads.filter fun x => !(x.uname == n) },
          .call out.req out.reply (some r))
 
+  | .er g k n l => let x := sys.store.touchRes g k n l; ({ sys with store := x.1 }, .touched x.2)
+  | .xaRaw n c => let x := sys.store.reapplyRaw n c; ({ sys with store := x.1 }, .reapplied x.2)
+  | .stepW n o c =>
+    match sys.thread? n with
+    | none => (sys, .ignored)
+    | some t =>
+      let out := t.stepW o c sys.store
+      match out.after with
+      | .cont t' =>
+        ({ sys with store := out.store, threads := sys.threads.map fun x => if x.uname == n then t' else x },
+         .call out.req out.reply none)
+      | .done r =>
+        ({ sys with store := out.store, threads := sys.threads.filter fun x => !(x.uname == n) },
+         .call out.req out.reply (some r))
+
 def Sys.run (sys : Sys) : List Action → Sys
   | [] => sys
   | a :: as => Sys.run (sys.exec a).1 as
 
-/-- informer-cache freshness of every Usage list in the schedule (reconciler and webhook) -/
+/-- the plain world: every Usage read (reconciler and webhook) is answered from the live store,
+injected failures carry no particular class, and composed Usages are templated in the version
+`RespectOwnerRefs` recognises. (`.er`, another writer editing a resource, IS part of the plain
+world: the theorems quantified over `listFresh` schedules cover it.) -/
 def Action.fresh : Action → Bool
   | .dr _ _ _ _ _ _ st => st.isNone
   | .step _ _ st => st.isNone
+  | .stepW _ _ _ => false
+  | .xaRaw _ _ => false
   | _ => true
 
 def listFresh (as : List Action) : Prop := ∀ a ∈ as, a.fresh = true
